@@ -112,6 +112,16 @@ def run(tier: str) -> int:
     for name, text in corpus.RICH + [("q:" + n, t) for n, t in typo.QUOTE_DOCS] + [("e:" + n, t) for n, t in c09.DOT_DOCS] + hdocs + tdocs:
         for o in cube:
             jobs.append(("R", name, text, o))
+    # family C (C01's): every block snippet inside every container, first in the container and after a leading paragraph
+    for c in c01.CONTAINERS_C:
+        for lead in ("", "lead text"):
+            for na, a in c01.SNIPPETS:
+                if na in ("def", "footnote") and c[0] != "quote":
+                    continue
+                body = (lead + "\n\n" + a) if lead else a
+                x = ("ref[^1]\n\n" if c[0] == "footnote" else "") + c01.wrap_in(c[1], c[2], body) + "\n\nafter\n"
+                for o in (dict(width=88, semantic=False, cleanups=False), dict(width=20, semantic=True, cleanups=True, smartquotes=True, ellipses=True)):
+                    jobs.append(("R", f"c:{c[0]}{'+lead' if lead else ''}/{na}", x, o))
     results = pmap(eval_pair, jobs, chunksize=100)
     traces, metas = [], {}
     for tid, (job, r) in enumerate(zip(jobs, results), 1):
@@ -166,6 +176,7 @@ def run(tier: str) -> int:
 
 def attribute(chk: Check, fails) -> None:
     """Known findings for C02 are keyed to (document of the corpus / family, trigger in the option set)."""
+    KF_OPEN.update(chk.open_findings)
     for t, m in fails:
         by = chk.notes.setdefault("idem_failures_by_doc", {})
         by[f"{m['fam']}/{m['doc']}"] = by.get(f"{m['fam']}/{m['doc']}", 0) + 1
@@ -202,6 +213,30 @@ def split_pair_blocks(m) -> bool:
     return True
 
 
+KF_OPEN: set = set()
+
+
+def d44_shape(tree) -> bool:
+    """some item of a tight list holds a loose list that is not its first block"""
+    def walk(n):
+        if not isinstance(n, tuple):
+            return False
+        if n[0] == "list":
+            tight = n[3]
+            for li in n[4]:
+                kids = li[1] if li and li[0] == "li" else []
+                if tight and any(k[0] == "list" and not k[3] for k in kids[1:]):
+                    return True
+                if any(walk(k) for k in kids):
+                    return True
+            return False
+        for part in n[1:]:
+            if isinstance(part, list) and any(walk(k) for k in part):
+                return True
+        return False
+    return walk(tree)
+
+
 def finding_for(m) -> str | None:
     """C02 failures that are consequences of an open C01 finding: the first pass already changed the document
     structure (so the second pass formats a different document) and the finding's trigger is present."""
@@ -225,6 +260,11 @@ def finding_for(m) -> str | None:
         return None
     if not changed:
         return None
+    # D44 (C01): the first pass turned a tight list loose because an item holds [block, loose list]; the second pass formats that other document
+    if "D44" in KF_OPEN and d44_shape(project.parse_marko(m["src"])):
+        a, b = project.flat(project.parse_marko(m["src"])), project.flat(project.parse_marko(m["pass1"]))
+        if len(a) == len(b) and all(x == y or (x.startswith("list:") and x.replace(":tight(", ":loose(") == y) for x, y in zip(a, b)):
+            return "D44"
     if m["fam"] == "S":
         try:
             rt = docgen.real_toks(m["src"])
